@@ -36,6 +36,9 @@ int g_K; WPair g_anonP; int g_n, g_op; CLT *g_cl; int g_cbid; Node *g_hp; void *
 int g_mix_n; _Bool g_mix_ret; int g_mix_postid; void *g_mix_self; int g_dd_n, g_dd_key, g_dd_arg; struct Mutex *g_dmutex;
 VArg *g_fe_args; CLT *g_fe_list; int g_fe_n; _Bool g_fe_ret; int g_cb_n; VArg *g_cb_arg; _Bool g_cb_ret; Callback *g_cb_f;
 #endif
+#ifdef UNIT_HDISPATCHER
+int g_K; WPair g_anonP; int g_n; HCLT *g_cl; int g_kind; int g_cbid; struct Mutex *g_dmutex;
+#endif
 #ifdef UNIT_CALLBACKLIST
 int g_cs_reads; Mutex *g_cs_mutex;
 int g_cbk_n; Callback *g_cbk_f; int g_cbk_arg; Node *g_cbk_h; int g_cci_n, g_cci_arg; _Bool g_cci_ret, g_vis_ret;
